@@ -30,7 +30,8 @@ class WA:
         self.g = g
         g.wa_begin.argtypes = [ctypes.c_long]
         g.wa_set_range.argtypes = [ctypes.c_size_t, ctypes.c_size_t]
-        for n in ("wa_nalloc", "wa_nfree", "wa_failed", "wa_live"):
+        g.wa_overrun_size.restype = ctypes.c_size_t
+        for n in ("wa_nalloc", "wa_nfree", "wa_failed", "wa_live", "wa_overruns"):
             getattr(g, n).restype = ctypes.c_long
         g.wa_live_bytes.restype = ctypes.c_size_t
         g.wa_snap_size.restype = ctypes.c_size_t
@@ -72,7 +73,8 @@ class WA:
             n = g.wa_live_size(i)
             leaked.append((2, ctypes.string_at(g.wa_live_data(i), n) if n else b"", g.wa_live_data(i) or 0))
         info = {"nalloc": g.wa_nalloc(), "nfree": g.wa_nfree(), "failed": g.wa_failed(), "live": g.wa_live(),
-                "live_bytes": g.wa_live_bytes(), "overflow": g.wa_overflow(), "snaps": snaps, "leaked": leaked}
+                "live_bytes": g.wa_live_bytes(), "overflow": g.wa_overflow(), "snaps": snaps, "leaked": leaked,
+                "overruns": g.wa_overruns(), "overrun_block_size": g.wa_overrun_size()}
         g.wa_release_leaked()
         return ret, info
 
